@@ -216,6 +216,11 @@ func (s *fakeServer) respond(conn net.Conn, f *refcodec.Frame, act string, delay
 	} else if act == "svc" {
 		h[2] |= 0x01
 		meta = []refcodec.KV{{K: []byte(protocol.ServiceError), V: []byte(fmt.Sprintf("svc-error-from-s%d", s.id))}}
+	} else if act == "badcodec" { // a Normal response whose serialize type no codec is registered for
+		h[3] = 15 << 4
+		payload = []byte("1")
+	} else if act == "mistyped" { // a Normal response whose payload does not fit the caller's reply type
+		payload = []byte(`"oops"`)
 	} else if len(act) > 3 && act[:3] == "js:" { // success with a literal JSON reply
 		payload = []byte(act[3:])
 	} else { // ok<r>
